@@ -8,6 +8,7 @@ import (
 
 	"cosmossdk.io/math"
 	sdk "github.com/cosmos/cosmos-sdk/types"
+	authtypes "github.com/cosmos/cosmos-sdk/x/auth/types"
 
 	ophosttypes "github.com/initia-labs/OPinit/x/ophost/types"
 
@@ -108,6 +109,16 @@ func (y *c03Sys) Root() *c03State {
 				panic(res.Err)
 			}
 		}
+	}
+	// the escrow also holds far more than 2^64 (several deposits / plain transfers can add up to
+	// that), so that a forged amount above 64 bits is not masked by "insufficient funds"
+	huge, _ := math.NewIntFromString("1000000000000000000000000")
+	hc := sdk.NewCoins(sdk.NewCoin("uxx", huge))
+	if err := w.BK.MintCoins(w.Ctx, authtypes.Minter, hc); err != nil {
+		panic(err)
+	}
+	if err := w.BK.SendCoinsFromModuleToAccount(w.Ctx, authtypes.Minter, ref.BridgeAddress(1), hc); err != nil {
+		panic(err)
 	}
 	return &c03State{ctx: w.Ctx, w: w, claimed: map[string]bool{}}
 }
@@ -325,10 +336,10 @@ func (y *c03Sys) probe(s *c03State, m c03Claim, label string) *engine.Violation 
 	if a, err := s.w.AK.AddressCodec().StringToBytes(m.To); err == nil {
 		toAddr = a
 	}
-	var tb, eb int64
-	if toAddr != nil && m.Bridge > 0 {
-		tb = balanceOf(s.w, ctx, toAddr, m.Denom)
-		eb = balanceOf(s.w, ctx, ref.BridgeAddress(m.Bridge), m.Denom)
+	tb, eb := math.ZeroInt(), math.ZeroInt()
+	if toAddr != nil && m.Bridge > 0 && sdk.ValidateDenom(m.Denom) == nil {
+		tb = s.w.BK.GetBalance(ctx, toAddr, m.Denom).Amount
+		eb = s.w.BK.GetBalance(ctx, ref.BridgeAddress(m.Bridge), m.Denom).Amount
 	}
 	res := s.w.Deliver(ctx, m.msg())
 	if res.OK() {
@@ -336,8 +347,7 @@ func (y *c03Sys) probe(s *c03State, m c03Claim, label string) *engine.Violation 
 		if !want {
 			return tagged(viol("accepted-claim-is-verifier-valid", "perturbed claim [%s] was accepted; the independent verifier rejects it", label), "perturbation", label)
 		}
-		amt := m.Amount.Int64()
-		if toAddr == nil || balanceOf(s.w, ctx, toAddr, m.Denom) != tb+amt || balanceOf(s.w, ctx, ref.BridgeAddress(m.Bridge), m.Denom) != eb-amt {
+		if toAddr == nil || !s.w.BK.GetBalance(ctx, toAddr, m.Denom).Amount.Equal(tb.Add(m.Amount)) || !s.w.BK.GetBalance(ctx, ref.BridgeAddress(m.Bridge), m.Denom).Amount.Equal(eb.Sub(m.Amount)) {
 			return viol("accepted-claim-pays-claimed-amount-to-claimed-recipient", "claim [%s] accepted but balances moved differently", label)
 		}
 		lf := ref.Leaf(m.Bridge, m.Seq, m.From, m.To, m.Denom, m.Amount.Uint64())
